@@ -112,7 +112,8 @@ def run(ctx):
         x = acc2.get(i, "")
         import re as _re
         lost = [w for w in (_re.search(r"lost=\[([^\]]*)\]", x).group(1).split(",") if x.startswith("OK differs") and "lost=[" in x else []) if w and w != tok]
-        word_before_group = (" " + tok + " ") in t and t.split(" " + tok + " ", 1)[-1].lstrip().startswith("(")
+        shown = tok if (" " + tok + " ") in t else "'" + tok + "'"          # the stray is inserted as a word or as a quoted literal
+        word_before_group = (" " + shown + " ") in t and t.split(" " + shown + " ", 1)[-1].lstrip().startswith("(")
         if lost and "differs-from-the-written-text" not in x and classify(d, t, x) is None and classify(d, orig, "") is None:
             ctx.count("stray:accepted-but-something-else-lost")
             pfam.report(ctx, "word-before-bracket-group" if word_before_group else "accounting:lost", {"kind": "input", "entry": "parse_statements + source", "dialect": d, "input": t, "original": orig, "observed": x[:400],
